@@ -1,5 +1,5 @@
 """C02 — generated C++ computes the symbolic model, its derivatives and noise matrices."""
-from lib import cppcheck, cppjobs
+from lib import cppcheck, cppjobs, glue
 from lib.ctx import Ctx
 
 
@@ -28,6 +28,38 @@ def run(ctx: Ctx):
                       sample={"states": sorted(d["state"]), "controls": sorted(d["control"]), "calibration": sorted(d["calibration"]),
                               "sensors": {k: sorted(v) for k, v in d["sensors"].items()}, "cse": job["cse"], "header_sha": c.get("header_sha")})
         cppcheck.compare_with_oracle(ctx, job, c, p if "error" not in p else None, "C02")
+    # ---- the model-only generator (cpp.compile: struct State / Control / Calibration and Model::model, no filter), on the
+    # same definitions and points; every other one declared over symbols that carry an assumption (real)
+    n_plain = 8 if ctx.tier == "quick" else 80
+    src = [i for i, (job, p) in enumerate(zip(jobs, pres)) if "error" not in p]
+    src = src[::max(1, len(src) // n_plain)][:n_plain]
+    pjobs = [dict(jobs[i], plain_model={"assumptions": ({"real": True} if t % 2 else None)}, keep_text=False) for t, i in enumerate(src)]
+    for i, pj, c in zip(src, pjobs, ctx.run_impl_jobs("cpp_gen.py", pjobs, timeout=3000)):
+        d, rep = pj["defn"], {"definition": pj["defn"], "cse": pj["cse"], "generator": "cpp.Model (model only)", "assumptions": pj["plain_model"]["assumptions"]}
+        S = sorted(d["state"])
+        if "error" in c:
+            if c.get("kind") != "SlowCompile":
+                ctx.violation(f"the model-only C++ generator refused / crashed on a valid definition: {c['kind']}", dict(rep, error=c["error"]), key=f"cppgen-plain-raises:{c['kind']}")
+            continue
+        if not c.get("compile_ok"):
+            ctx.violation("generated C++ (model only) does not compile: " + c.get("compile_err", "")[-600:].replace("\n", " | "),
+                          dict(rep, compile_err=c.get("compile_err"), header=c.get("header"), source=c.get("source")), key="cpp-plain-does-not-compile")
+            continue
+        if not c.get("run_ok"):
+            ctx.violation("compiled generated model crashed at run time", rep, key="cpp-plain-crash")
+            continue
+        for pi, (pt, run) in enumerate(zip(pj["points"], c["runs"])):
+            orc = pres[i]["points"][pi]["oracle"]
+            ctx.count(["C02-plain", d, pj["cse"], pj["plain_model"], pt], len(S) >= 2)
+            if "_failed" in orc:
+                continue
+            for k_, nm in enumerate(S):
+                got, acc, exp = run.get(f"model/{k_}/0"), run.get(f"plainacc/{nm}"), orc["state"][nm]
+                if got is None or acc is None or got != got or not glue.close(got, exp, 1e-9) or acc != got:
+                    ctx.violation(f"generated C++ (model only, {'CSE' if pj['cse'] else 'no CSE'}{', symbols declared real' if pj['plain_model']['assumptions'] else ''}): "
+                                  f"Model::model slot {k_} (named {nm!r}) holds {got!r} (accessor {acc!r}), the symbolic value is {exp!r}",
+                                  dict(rep, inputs=pt, observed={s_: run.get(f'model/{q}/0') for q, s_ in enumerate(S)}, expected=orc["state"]), key="cpp-plain-model")
+                    break
     nstruct = cppcheck.run_structure(ctx, jobs, cres)
     ctx.cov["input_distribution"] = {"filters": n, "control_x_calibration": combos, "sensors_per_filter": sens, "structure_cases": nstruct}
     ctx.cov["programs"] = n
